@@ -337,6 +337,20 @@ static void do_reg(char *line)
     free(path);
 }
 
+/* HOOKALL: give every node of the live tree that has no change hook the logging hook, the way src/log.c and
+ * the decision modules hook the entries of their sections (directly, without conf_register_*). */
+static void hook_all(struct conf_node_object *o)
+{
+    struct set_node *it;
+    for (it = set_first(&o->contents); it; it = set_next(it)) {
+        struct conf_node_base *b = set_node_data(it);
+        if (!b->hook)
+            b->hook = hook;
+        if (b->type == CONF_OBJECT)
+            hook_all((void *)b);
+    }
+}
+
 /* ---------------------------------------------------------- set auditing */
 
 static unsigned audit_fail;
@@ -621,6 +635,8 @@ int event_base_dispatch(struct event_base *b)
             char *txt = strtok_r(NULL, "\n", &sv);
             if (fac && sev && txt)
                 log_message(log_type_register(keepstr(strdup(fac)), NULL), atoi(sev), "%s", txt);
+        } else if (!strncmp(hdr, "HOOKALL", 7)) {
+            hook_all(conf_get_root());
         } else if (!strncmp(hdr, "DUMPCONF", 8)) {
             dump(conf_get_root(), "");
         } else if (!strncmp(hdr, "AUDIT", 5)) {
